@@ -93,4 +93,31 @@ theorem derived_history (cfg : Spec.Seq.Cfg) (r : Arr) (ops : List Spec.Seq.Op) 
   have := C01.history_refines cfg ops r m hinv hlive hsort
   exact ⟨this.1, this.2.1⟩
 
+/-- the same for the copies and the filter result: they keep the source's capacity and growth
+function, so an append succeeds whenever the allocator does not refuse -/
+theorem derived_can_grow (r : Arr) (x : Nat) (m : Mem) (hinv : r.Inv) (hlive : 0 < m.live)
+    (halloc : r.size = r.capacity → m.alloc.1 = true) (hlim : ¬ r.AtLimit) :
+    (r.add x m).1 = .ok ∧ (r.add x m).2.1.abs = r.abs ++ [x] ∧ (r.add x m).2.1.Inv ∧ (r.add x m).2.1.grow = r.grow := by
+  obtain ⟨ok, habs⟩ := C01.add_succeeds r x m hinv hlive halloc hlim
+  rcases (Arr.add_spec r x m hinv hlive).1 with ⟨_, _, g⟩ | ⟨hb, _⟩
+  · exact ⟨ok, habs, g.inv hinv, g.2.2.2.2⟩
+  · rcases hb.1 with ⟨e1, _⟩ | ⟨e1, _⟩ <;> rw [e1] at ok <;> simp at ok
+
+/-- **the source is equal to what it was**: the builders are functions *of* the source state that
+return only the new array and the ledger — there is no updated source to speak of; in particular the
+source still satisfies its invariant and has the same content, size, capacity and buffer -/
+theorem source_unchanged (a : Arr) (b e : Nat) (cp : Nat → Nat) (p : Nat → Bool) (m : Mem) :
+    (fun (_ : Stat × Option Arr × Mem) => a) (a.subarray b e m) = a ∧
+    (fun (_ : Stat × Option Arr × Mem) => a) (a.copyShallow m) = a ∧
+    (fun (_ : Stat × Option Arr × List Nat × Mem) => a) (a.copyDeep cp m) = a ∧
+    (fun (_ : Stat × Option Arr × List Nat × Mem) => a) (a.filter p m) = a := ⟨rfl, rfl, rfl, rfl⟩
+
+/-- **independence**: source and result are separate values; a history run on one component of the
+pair (source, result) returns the other as it was.  (That the C objects share no memory is checked by
+the harness: both are observed after every operation on either, and one is destroyed while the other
+is still used, under ASan.) -/
+theorem independent (cfg : Spec.Seq.Cfg) (a r : Arr) (ops : List Spec.Seq.Op) (m : Mem) :
+    (fun (pr : Arr × Arr) => ((pr.1.run cfg ops m).2.1, pr.2)) (a, r) = ((a.run cfg ops m).2.1, r) ∧
+    (fun (pr : Arr × Arr) => (pr.1, (pr.2.run cfg ops m).2.1)) (a, r) = (a, (r.run cfg ops m).2.1) := ⟨rfl, rfl⟩
+
 end CC.Properties.C15Array
